@@ -459,3 +459,49 @@ def edge_guard(f, bb, tests, success=True):
     if success:
         return requires(f, bb, tests)
     return requires_failure(f, bb, tests)
+
+
+def operand_sources(f, op, **kw):
+    """copy_sources for an operand (constants are their own source)."""
+    if op["k"] == "const":
+        return {("const", op.get("def") or op.get("v") or "?")}
+    if op["p"].get("p"):
+        return {("place", op["p"]["l"], _fields_of(op["p"]))} if not kw.get("follow") else copy_sources(f, op["p"]["l"], **{k: v for k, v in kw.items() if k != "follow"})
+    return copy_sources(f, op["p"]["l"], **{k: v for k, v in kw.items() if k != "follow"})
+
+
+def calls_reaching(F, f, targets, depth=2):
+    """Calls in `f` that are to one of `targets` or to a workspace function whose closure
+    tree (transitively, up to `depth`) calls one of them."""
+    targets = set(targets)
+    memo = {}
+
+    def reaches(npath, d):
+        if npath in targets:
+            return True
+        if d <= 0:
+            return False
+        if npath in memo:
+            return memo[npath]
+        memo[npath] = False
+        if not F.has_fn(npath):
+            return False
+        res = False
+        for g in F.tree_of(npath):
+            for b, t in g.calls():
+                for n in callee_names(t):
+                    if n in targets or (n.startswith(("iroh", "<iroh")) and reaches(n, d - 1)):
+                        res = True
+                        break
+                if res:
+                    break
+            if res:
+                break
+        memo[npath] = res
+        return res
+
+    out = []
+    for b, t in f.calls():
+        if any(reaches(n, depth) for n in callee_names(t)):
+            out.append((b, t))
+    return out
